@@ -329,6 +329,10 @@ class HDWallet:
             index += 2**31
 
         if private:
+            if self._xprivate_key is None:
+                raise ValueError(
+                    "Cannot derive a private child key from a public-only wallet"
+                )
             private_node = (
                 self._xprivate_key[:32],
                 self._xprivate_key[32:],
@@ -483,7 +487,7 @@ class HDWallet:
             root_xprivate_key=self._root_xprivate_key,
             root_public_key=self._root_public_key,
             root_chain_code=self._root_chain_code,
-            xprivate_key=self._xprivate_key,
+            xprivate_key=None,
             public_key=A,
             chain_code=c,
             path=path,
